@@ -455,6 +455,36 @@ func c06Construct(k *fw.K, shape []int) {
 				}
 			}
 		}
+		if len(shape) == 3 && shape[0]*shape[1] >= 3 {
+			// the same for depth 3: every innermost row is a window into one buffer, one of them lives elsewhere
+			d0, d1, d2 := shape[0], shape[1], shape[2]
+			buf := make([]float64, d0*d1*d2)
+			nested := make([][][]float64, d0)
+			moved := 1 + k.Rng.Intn(d0*d1-2)
+			for i := 0; i < d0; i++ {
+				nested[i] = make([][]float64, d1)
+				for j := 0; j < d1; j++ {
+					at := (i*d1 + j) * d2
+					nested[i][j] = buf[at : at+d2]
+					copy(nested[i][j], x.Data[at:at+d2])
+					if i*d1+j == moved {
+						nested[i][j] = append([]float64(nil), x.Data[at:at+d2]...)
+						for q := 0; q < d2; q++ {
+							buf[at+q] = 777
+						}
+					}
+				}
+			}
+			tw, err := tensor.TensorOf(nested, nil)
+			if err != nil {
+				msg = "TensorOf(depth-3 data whose rows are windows into one buffer): " + err.Error()
+				return
+			}
+			if e := rt.Compare(tw, x, 0, 0, nil, 0); e != nil {
+				msg = "TensorOf(depth-3 data whose rows are windows into one buffer): " + e.Error()
+				return
+			}
+		}
 		v := x.Data[0]
 		for name, f := range map[string]func() (tensor.Tensor, error){
 			"Full":  func() (tensor.Tensor, error) { return tensor.Full(ref.CopyInts(shape), v, nil) },
